@@ -5,6 +5,8 @@ package props
 
 import (
 	"fmt"
+	"github.com/vektah/gqlparser/v2/ast"
+	"github.com/vektah/gqlparser/v2/parser"
 	"sort"
 	"strings"
 
@@ -75,13 +77,23 @@ var argDocs = []string{
 	`query B($v: Int = 2) { ...F } query A($v: Int) { ...F } fragment F on Query { args(l: [$v], c: {v: $v}) z: args(i: $v) }`,
 	`query Q($v: Int = 1 @dir(x: 2)) { args(i: $v, f: 3, id: 4, c: -0.0e0, s: """block
   string""") }`,
+	// omitted variables whose default is a single value where the type (or a field of it) is a list: the
+	// argument receives the COERCED default
+	`query Q($l: [Int] = 5, $ll: [[Int]] = 1, $in: Inner = {b: "x", c: 1}, $d: Deep = {lnn: 1, l2: 2, m: {b: "m"}}) { args(l: $l, ll: $ll, in: $in, d: $d) @dir(l: $l, ll: $ll) }`,
+	`query Q($l: [Int] = 5, $w: WithDefaults = {req: 1, lst: 4}, $c: Custom = [1, {k: 2}]) { args(l: $l, c: {v: $c, l: $l}, w: $w) sub { args(w: {req: 3, lst: 7}, ll: [5]) } }`,
 	`{ args(c: "str", l: 5, ll: 1) a: args(ll: [1, 2]) b: args(ll: [[1], 2]) c: args(c: ENUMVAL, e: SK) __typename }`,
 	`{ __schema { types { name fields(includeDeprecated: true) { name } } } __type(name: "Inner") { name } }`,
 }
 
 var customLits = []string{`1`, `"s"`, `99999999999999999999`, `-99999999999999999999`, `9223372036854775807`, `9223372036854775808`, `-9223372036854775808`, `1e999`, `-1e999`, `1e-999`, `1.7976931348623159e308`, `1.7976931348623157e308`, `0.0`, `true`, `null`, `[]`, `{}`,
 	// integers beyond float64 (→ ±Inf), 2^63 boundaries, 2^64 boundaries, exponent forms
-	strings.Repeat("9", 400), "-" + strings.Repeat("9", 400), `-9223372036854775809`, `18446744073709551615`, `18446744073709551616`, `1E+400`, `-0.0E-999`, `123456789012345678901234567890.5e-10`}
+	strings.Repeat("9", 400), "-" + strings.Repeat("9", 400), `-9223372036854775809`, `18446744073709551615`, `18446744073709551616`, `1E+400`, `-0.0E-999`, `123456789012345678901234567890.5e-10`,
+	// literals nested deeper than any fixed recursion budget a converter might have
+	nestLit(31, "[", "]", "1"), nestLit(32, "[", "]", "1"), nestLit(33, "[", "]", `"s"`), nestLit(34, "{k: ", "}", "null"), nestLit(65, "[{k: ", "}]", "E"), nestLit(300, "[", "]", "[1, {}]"), nestLit(1100, "{k: [", "]}", "2.5")}
+
+func nestLit(n int, open, close, leaf string) string {
+	return strings.Repeat(open, n) + leaf + strings.Repeat(close, n)
+}
 
 var argVarSets = []string{
 	`(m I)`,
@@ -277,6 +289,46 @@ func (c *Ctx) runArgMaps(refs []argRef, st *argStats, dist map[string]int) {
 	}
 }
 
+// coercedVarsHypothesis: C15 speaks of "every variables map that passed coercion". The maps the argument
+// maps above were computed from are what VariableValues returned; here the same (schema, operation,
+// variables) go through the coercion correspondence and the conformance judgement of C14, so that a
+// coerced map that is not the one the specification prescribes (a default that was not coerced, a value
+// that does not conform) shows in C15 as what it is: the argument does not get the prescribed value.
+func (c *Ctx) coercedVarsHypothesis(refs []argRef, report bool) {
+	var cases []varsCase
+	decl := map[string][][]varSpec{}
+	for _, r := range refs {
+		if !r.coerce {
+			continue
+		}
+		d, ok := decl[r.doc]
+		if !ok {
+			if doc, err := parser.ParseQuery(&ast.Source{Input: r.doc, Name: "doc"}); err == nil {
+				for _, op := range doc.Operations {
+					vs := []varSpec{}
+					for _, v := range op.VariableDefinitions {
+						vs = append(vs, varSpec{v.Variable, v.Type})
+					}
+					d = append(d, vs)
+				}
+			}
+			decl[r.doc] = d
+		}
+		if r.oi < 0 || r.oi >= len(d) || len(d[r.oi]) == 0 {
+			continue
+		}
+		cases = append(cases, varsCase{schema: r.sdl, doc: r.doc, opIndex: r.oi, vars: d[r.oi], vals: []string{r.vars}})
+	}
+	vst := newVarsStats()
+	c.runVarsCases(cases, vst)
+	c.Ev.Count("coerced-variable-maps-judged", vst.cases)
+	if report {
+		// the tolerated __typename key (recorded under C14) is not this property's business
+		delete(vst.specEx, "typenameKey(R14c)")
+		reportVars(c, vst)
+	}
+}
+
 func (c *Ctx) checkArgMaps(sdl string, report bool) {
 	st := &argStats{panicEx: map[string]string{}, replays: map[string]map[string]any{}}
 	evalsBefore := c.Ev.Evals
@@ -327,6 +379,7 @@ func (c *Ctx) checkArgMaps(sdl string, report bool) {
 	}
 	st.docs = len(docs) + nSchemas*4
 	c.runArgMaps(refs, st, dist)
+	c.coercedVarsHypothesis(refs, report)
 	fmt.Printf("X-vars argmap: %d documents (%d rejected by validation), %d field/directive sites: go OK %d, PANIC %d; coercion failed for %d (document, vars) pairs; MISMATCHES %d\n",
 		st.docs, st.invalid, st.sites, st.ok, st.panics, st.nocoerce, st.mismatches)
 	keys := make([]string, 0, len(st.panicEx))
